@@ -7,7 +7,8 @@ RULE = ('TLC checks the iteration guarantee on the implementation-shaped cursor 
         'position in hash order, repaired design; the pinned index-into-sorted-list design is kept as a switch and yields the '
         'skip schedule); on the real server full cursor iterations of SCAN/HSCAN/SSCAN/ZSCAN with every COUNT from 1, MATCH '
         'globs and TYPE run while other elements are added and deleted between calls (TLC-found skip schedules first, then '
-        'seeded random ones); the trace spec keeps per iteration the sets stable/ever/returned and requires, when the cursor '
+        'seeded random ones, then large collections in which MATCH selects a handful of elements so that many calls in a row '
+        'return nothing); the trace spec keeps per iteration the sets stable/ever/returned and requires, when the cursor '
         'returns to 0, returned >= stable, returned <= ever, and termination when nothing grows. Distinct = distinct iteration.')
 ASSUMPTIONS = ['one open iteration per (connection, db, command, key); a cursor the spec did not hand out is Unspecified']
 
@@ -95,6 +96,64 @@ def run_iterations(ctx, srv, n_iter, label):
     return done
 
 
+def sparse_iterations(ctx, srv, sizes, counts):
+    """A large collection in which MATCH selects a handful of elements: many calls in a row find nothing (an empty or
+    short page is not the end of the iteration), with and without additions / deletions of non-matching elements."""
+    rnd = ctx.rnd
+    s = workloads.fresh_session(ctx, srv, 'sparse')
+    done = 0
+    try:
+        c = s.open()
+        m = s.open()
+        for kind in ('SCAN', 'HSCAN', 'SSCAN', 'ZSCAN'):
+            for n in sizes:
+                for count in counts:
+                    s.cmd(c, [b'FLUSHALL'])
+                    bulk = [b'bulk:%03d' % i for i in range(n)]
+                    rare = [b'rare:%d' % i for i in range(5)]
+                    names = bulk + rare
+                    rnd.shuffle(names)
+                    key = None
+                    if kind == 'SCAN':
+                        for i in range(0, len(names), 40):
+                            s.cmd(m, [b'MSET'] + [x for e in names[i:i + 40] for x in (e, b'v')])
+                    elif kind == 'HSCAN':
+                        key = b'H'
+                        s.cmd(m, [b'HSET', key] + [x for e in names for x in (e, b'v')])
+                    elif kind == 'SSCAN':
+                        key = b'S'
+                        s.cmd(m, [b'SADD', key] + names)
+                    else:
+                        key = b'Z'
+                        s.cmd(m, [b'ZADD', key] + [x for i, e in enumerate(names) for x in (str(i % 7).encode(), e)])
+                    pool = list(bulk)
+                    fresh = [b'bulk:n%02d' % i for i in range(30)]
+
+                    def mutate():
+                        k = rnd.randrange(8)
+                        if k == 0 and pool:
+                            e = pool.pop(rnd.randrange(len(pool)))
+                            if kind == 'SCAN': s.cmd(m, B('DEL', e))
+                            elif kind == 'HSCAN': s.cmd(m, [b'HDEL', key, e])
+                            elif kind == 'SSCAN': s.cmd(m, [b'SREM', key, e])
+                            else: s.cmd(m, [b'ZREM', key, e])
+                        elif k == 1 and fresh:
+                            e = fresh.pop()
+                            if kind == 'SCAN': s.cmd(m, B('SET', e, 'v'))
+                            elif kind == 'HSCAN': s.cmd(m, [b'HSET', key, e, b'w'])
+                            elif kind == 'SSCAN': s.cmd(m, [b'SADD', key, e])
+                            else: s.cmd(m, [b'ZADD', key, b'9', e])
+                    iterate(s, c, kind.encode(), key, count, rnd, mutate, b'rare:*', None, max_calls=1000)
+                    done += 1
+    except ServerDied:
+        pass
+    s.close_all()
+    ctx.validate(s.trace, label='sparse')
+    if not srv.alive():
+        srv.restart()
+    return done
+
+
 def skip_schedule(ctx, srv):
     """The schedule TLC finds on the pinned design: delete an element that sorts before the cursor."""
     s = workloads.fresh_session(ctx, srv, 'skip')
@@ -142,6 +201,7 @@ def run(ctx):
     n = 0
     for i in range(4 if ctx.quick else 30):
         n += run_iterations(ctx, srv, 12 if ctx.quick else 40, 'scan%d' % i)
+    n += sparse_iterations(ctx, srv, [60] if ctx.quick else [60, 150, 400], [1, 3] if ctx.quick else [1, 2, 3, 10, 25])
     ctx.extra_cov['iterations'] = n
     ctx.extra_cov['distinct_cases'] = n + 4
 
